@@ -151,7 +151,8 @@ theorem MInv.replace {y : Sys} (h : MInv y) (c' : Client) (ca : List CacheEnt) (
     · exact h.ord d hd' hop
   · exact hca
 
-theorem MInv.next {y : Sys} (h : MInv y) (id : Nat) : MInv (next y id).1 := by
+theorem MInv.next {y : Sys} (h : MInv y) (id : Nat) (hz : ∀ c, getClient y id = some c → c.authz = .all) :
+    MInv (next y id).1 := by
   unfold CV.Stream.next CV.Stream.nextWith
   cases hg : getClient y id with
   | none => exact h
@@ -179,7 +180,7 @@ theorem MInv.next {y : Sys} (h : MInv y) (id : Nat) : MInv (next y id).1 := by
       cases hin : c.inbox with
       | nil => exact h
       | cons st rest =>
-        simp only
+        simp only [hz c hg, visible_all]
         have ha := h.ord c hc hsub
         rw [hin] at ha
         cases hidx : stepIdx st with
@@ -199,8 +200,8 @@ theorem MInv.expire {y : Sys} (h : MInv y) : MInv (expire y) := by
   unfold CV.Stream.expire
   exact ⟨h.one, h.ib, h.mono, h.ord, (by intro e he; cases he)⟩
 
-theorem MInv.addClient {y : Sys} (h : MInv y) (id : Nat) (k : Key) (t : String) (r : Bool) :
-    MInv (addClient y id k t r) := by
+theorem MInv.addClient {y : Sys} (h : MInv y) (id : Nat) (k : Key) (t : String) (r : Bool) (a : Authz) :
+    MInv (addClient y id k t r a) := by
   unfold CV.Stream.addClient
   cases hg : getClient y id with
   | some c => simpa using h
